@@ -19,10 +19,9 @@ def check(F, rep):
     if not sels:
         return
     sel = sels[0]
-    parms = sel.arm_by_output(r"Option<iroh_relay::server::client::Packet>")
-    marms = sel.arm_by_output(r"Option<iroh_relay::protos::relay::RelayToClientMsg>")
-    rep.exact("select", "arms fed by the packet queue", len(parms), 1)
-    rep.exact("select", "arms fed by the message queue", len(marms), 1)
+    # the arm that forwards other clients' packets: the one whose body calls Actor::send_packet
+    parms = [a for a in sel.arms if any(is_call_to(t, ACT + "send_packet") for b, t in calls_in(ri, sel.region(a)))]
+    rep.exact("select", "arms forwarding packets of other clients (calling Actor::send_packet)", len(parms), 1)
     if not parms:
         return
     region = sel.region(parms[0])
